@@ -82,6 +82,8 @@ def ctor_of(v):
     seen = 0
     while isinstance(v, dict) and seen < 10:
         seen += 1
+        if v.get("v") == "struct" and v.get("ctor"):
+            return v["ctor"]  # value of a derived Default
         if v.get("kind") == "call":
             cal = v.get("callee") or ""
             if cal.split("::")[-2:] in (["Box", "new"], ["Rc", "new"]) and v.get("args"):
